@@ -659,7 +659,7 @@ def first_divergence(script, native):
     return None
 
 
-def run_scripts(vreplay, scripts, tag='imem'):
+def run_scripts(vreplay, scripts, tag='imem', backend='imem'):
     """-> list of native results (one per script) or None"""
     import subprocess
     import tempfile
@@ -667,7 +667,7 @@ def run_scripts(vreplay, scripts, tag='imem'):
         json.dump({'scripts': scripts}, f)
         path = f.name
     try:
-        p = subprocess.run([vreplay, 'imem', path], stdout=subprocess.PIPE, stderr=subprocess.PIPE, timeout=120)
+        p = subprocess.run([vreplay, backend, path], stdout=subprocess.PIPE, stderr=subprocess.PIPE, timeout=180)
         return json.loads(p.stdout.decode().strip().split('\n')[-1])['results']
     except Exception:  # noqa: BLE001
         return None
